@@ -535,6 +535,8 @@ func runC01(c *Ctx) {
 	// an output counts only while it is not leased: the lease must not be ended by anything but its owner, its expiry or
 	// a confirmed spend (C12's rules on the writers of the lease bucket, taken over)
 	c.Borrow(runC12, "C12-R4", "C01-R1", func(k string) bool { return strings.HasPrefix(k, "lease-release-per-input") })
+	// "not leased": the lease is asked of the output being judged
+	c.Borrow(runC12, "C12-R1", "C01-R1", func(k string) bool { return strings.HasPrefix(k, "lease-test-names-the-judged-output") })
 	c.Borrow(runC12, "C12-R5", "C01-R1", func(k string) bool {
 		return strings.HasPrefix(k, "lease-released-only-by-owner-expiry-or-confirmed-spend") || strings.HasPrefix(k, "lease-bucket-writer")
 	})
